@@ -763,4 +763,109 @@ theorem block_exec_sel (d : Dfsr) (st : Store) (t : Nat) (bs : List Nat) (n a st
       exact hex
     · rw [hfs', hrl, hfsh]; simp
 
+
+/-- **All map entries, channel subset, direct X.** -/
+theorem entries_exec_sel (d : Dfsr) (st : Store) (c : Nat) (p : Plan) (c0 : Nat) (rest : List Nat)
+    (hp : p = ⟨0, d.chans.map Chan.size⟩) (hok : d.sizesOk) (hc : 0 < c)
+    (hltc : ∀ x ∈ c0 :: rest, x < d.chans.length) (hsorted : (c0 :: rest).Pairwise (· < ·)) :
+    ∀ (entries : List (Int × List Nat)) (frInt : Nat) (r : Run),
+      (∀ e ∈ entries, EntryOk d st c e) →
+      r.fs.chIdx = c0 :: rest →
+      (∀ row ∈ r.fs.frames, row.length = sumN ((selChans d (c0 :: rest)).map Chan.numValues)) →
+      frInt + (entries.map (·.2.length)).sum ≤ r.fs.frames.length →
+      ∃ evs r', genFrameSetEventsAux p (c0 :: rest) entries frInt = .ok evs ∧ execEvs d st evs r = .ok r' ∧
+        r'.fs = { r.fs with frames := setRows r.fs.frames frInt (entries.flatMap (fun e => e.2.map (rowOfSel d p (c0 :: rest) (bytesOf st e.1.toNat)))) } := by
+  intro entries
+  induction entries with
+  | nil =>
+    intro frInt r _ _ _ _
+    exact ⟨[], r, by simp [genFrameSetEventsAux], by simp [execEvs], by simp [setRows]⟩
+  | cons e rest' ih =>
+    intro frInt r hent hch hrows hN
+    obtain ⟨seek, buf⟩ := e
+    obtain ⟨a, len, n, bs, hbuf, hfind, hhead, hbs, hlast⟩ := hent (seek, buf) (List.mem_cons_self ..)
+    simp only at hbuf hfind
+    subst hbuf
+    simp only [List.map_cons, List.sum_cons, ap_length] at hN
+    obtain ⟨a', b', c', evs1, r1, hsl, hgen, hex, hfs⟩ := block_exec_sel d st seek.toNat bs n a c len frInt p c0 rest hp hok hc
+      hltc hsorted hfind hhead hbs hlast r hch hrows (by omega)
+    have hch1 : r1.fs.chIdx = c0 :: rest := by rw [hfs]; exact hch
+    have hrows1 : ∀ row ∈ r1.fs.frames, row.length = sumN ((selChans d (c0 :: rest)).map Chan.numValues) := by
+      rw [hfs]
+      apply setRows_rowlen _ _ _ _ hrows
+      intro row hm
+      obtain ⟨g, _, rfl⟩ := List.mem_map.1 hm
+      exact rowOfSel_length d p _ bs g
+    have hlen1 : r1.fs.frames.length = r.fs.frames.length := by rw [hfs]; exact setRows_length _ _ _
+    obtain ⟨evs2, r2, hgen2, hex2, hfs2⟩ := ih (frInt + (len + 1)) r1
+      (fun e he => hent e (List.mem_cons_of_mem _ he)) hch1 hrows1 (by rw [hlen1]; omega)
+    refine ⟨⟨.seekLr, seek.toNat, none, none, none⟩ :: renumber (ap a c (len + 1)) frInt evs1 0 ++ evs2, r2, ?_, ?_, ?_⟩
+    · simp only [genFrameSetEventsAux, hsl, hgen, ap_length, hgen2]
+    · rw [execEvs_append, hex]; exact hex2
+    · rw [hfs2, hfs]
+      simp only [List.flatMap_cons]
+      have hb : bytesOf st seek.toNat = bs := by simp [bytesOf, hfind]
+      rw [hb]
+      have := setRows_append r.fs.frames frInt ((ap a c (len + 1)).map (rowOfSel d p (c0 :: rest) bs))
+        (rest'.flatMap (fun e => e.2.map (rowOfSel d p (c0 :: rest) (bytesOf st e.1.toNat))))
+      simp only [List.length_map, ap_length] at this
+      simp only [this]
+
+
+/-- the channels of the frame set (`_chIdxIntExt`) for a direct-X log pass whose X channel is channel 0 -/
+def selIdx (d : Dfsr) (chList : Option (List Nat)) : List Nat :=
+  match chList with
+  | none => List.range d.chans.length
+  | some l => sortDedup (l ++ [0])
+
+theorem selIdx_props (d : Dfsr) (chList : Option (List Nat)) (hn : 0 < d.chans.length)
+    (hcl : ∀ l, chList = some l → ∀ c ∈ l, c < d.chans.length) :
+    (selIdx d chList).Pairwise (· < ·) ∧ (∀ c ∈ selIdx d chList, c < d.chans.length) ∧ selIdx d chList ≠ [] := by
+  cases chList with
+  | none =>
+    refine ⟨List.pairwise_lt_range, by intro c hc; simpa [selIdx] using hc, ?_⟩
+    intro h
+    have : (selIdx d none).length = d.chans.length := by simp [selIdx]
+    rw [h] at this; simp at this; omega
+  | some l =>
+    refine ⟨sortDedup_sorted _, ?_, ?_⟩
+    · intro c hc
+      have := (sortDedup_mem (l ++ [0]) c).1 hc
+      rcases List.mem_append.1 this with h | h
+      · exact hcl l rfl c h
+      · simp at h; omega
+    · intro h
+      have : 0 ∈ sortDedup (l ++ [0]) := (sortDedup_mem _ 0).2 (by simp)
+      simp only [selIdx] at h
+      rw [h] at this; simp at this
+
+theorem new_direct (d : Dfsr) (S : Sl) (chList : Option (List Nat)) (hrm : d.recMode = 0)
+    (hlt : ∀ c ∈ selIdx d chList, c < d.chans.length) :
+    FrameSet.new d S chList 0 = .ok ⟨selIdx d chList, rangeLen S.start S.stop S.step1,
+      List.replicate (rangeLen S.start S.stop S.step1)
+        (List.replicate (sumN ((selChans d (selIdx d chList)).map Chan.numValues)) none), [], none⟩ := by
+  have hvpf : ∀ cs : List Nat, sumN (cs.map (fun e => ((d.chans[e]?).map Chan.numValues).getD 0))
+      = sumN ((selChans d cs).map Chan.numValues) := by
+    intro cs; simp only [selChans, List.map_map]; congr 1
+    apply List.map_congr_left; intro e _; exact chanAt_nv d e
+  have hany : (selIdx d chList).any (fun e => decide (e ≥ d.chans.length)) = false := by
+    rw [List.any_eq_false]; intro e he; have := hlt e he; simp; omega
+  unfold FrameSet.new
+  cases chList with
+  | none =>
+    simp only [selIdx] at hany ⊢
+    simp only [hrm, hany]
+    simp [hvpf]
+  | some l =>
+    simp only [selIdx] at hany ⊢
+    simp only [hrm]
+    simp [hany, hvpf]
+
+/-- the row the matrix must hold for frame `f`: the selected channels, from the record that `locate` finds -/
+def frameRowSel (d : Dfsr) (st : Store) (R : List (Int × Nat)) (cs : List Nat) (f : Nat) : List (Option Nat) :=
+  match locate R f with
+  | some (t, off) => rowOfSel d ⟨0, d.chans.map Chan.size⟩ cs (bytesOf st t.toNat) off
+  | none => []
+
+
 end TD.C06
